@@ -1,10 +1,10 @@
 SPECIFICATION Spec
 CONSTANTS
-  Threads = {t1, t2, t3}
-  MaxPush = 3
-  MaxPop = 3
-  MaxUnblock = 1
-  MaxSize = 1
+  Threads = {t1}
+  MaxPush = 5
+  MaxPop = 5
+  MaxUnblock = 3
+  MaxSize = 0
   Void = FALSE
   AllowDestroy = TRUE
 INVARIANTS TypeOK NeverBothNonEmpty ExactlyOnceDelivery DeliveredInOrder ItemsSorted WaitersFIFO NoLostWaiter DestroyCancels
